@@ -9,7 +9,7 @@ U = 2.0 ** -72         # the unit in the last place of the double 1e-6 (= 472236
 NE = 4722366482869645  # mantissa of the double 1e-6
 NH = (NE - 1) // 2     # NH + (NH + 1) == NE: two stretches that add up to exactly the threshold
 STYLES = ['plain', 'ties', 'coalesce', 'reinserting', 'empty', 'mixed',
-          'pastadds', 'negkids', 'epsgrid', 'decimal', 'diverge', 'clockrel', 'interrupt']
+          'pastadds', 'negkids', 'epsgrid', 'decimal', 'diverge', 'clockrel', 'interrupt', 'exact', 'reent']
 
 
 class Runaway(BaseException):
@@ -17,6 +17,14 @@ class Runaway(BaseException):
     watchdog timer repeats for the same reason)  raised by the recorder itself (hard guard, always on): one evolve_until executed more callbacks + integrations
     than the history can account for (a callback fired again and again), or did not return within the wall-clock
     watchdog.  Never raised on a correct implementation: generated histories terminate (dry-run `population`)."""
+
+
+class Obs(list):
+    """the per-evolve observations of one history + `faults`: (key, what) for a public call outside evolve_until that
+    raised (add_callback refusing a legal time argument) - the history stops there"""
+    def __init__(self, *a):
+        list.__init__(self, *a)
+        self.faults = []
 
 
 class PreRaise(Exception):
@@ -43,15 +51,15 @@ def population(ops, cap=POPULATION_CAP):
     kids, heap, ctr, n, guard = {}, [], 0, 0, 0
     for op in ops:
         if op[0] == 'kids':
-            kids[op[1]] = [(float(k[0]), int(k[1])) for k in op[2]]
+            kids[op[1]] = [(tm(k[0]), int(k[1])) for k in op[2]]
         elif op[0] == 'guard':
             guard = int(op[1])
         elif op[0] == 'add':
-            heapq.heappush(heap, (float(op[1]), ctr, int(op[2])))
+            heapq.heappush(heap, (tm(op[1]), ctr, int(op[2])))
             ctr += 1
         elif op[0] == 'evolve':
             m = 0
-            while heap and heap[0][0] < float(op[1]) and n < cap and not (guard and m >= guard):
+            while heap and heap[0][0] < tm(op[1]) and n < cap and not (guard and m >= guard):
                 t, _, cid = heapq.heappop(heap)
                 n += 1
                 m += 1
@@ -84,6 +92,10 @@ def gen_history_any(rng, big):
         return style, gen_clockrel(rng, nids)
     if style == 'interrupt':
         return style, gen_interrupt(rng, big)
+    if style == 'exact':
+        return style, gen_exact(rng, nids)
+    if style == 'reent':
+        return style, gen_reent(rng, nids)
     # callback behaviours: zero/small delays only towards larger ids (a DAG), self-reinsertion
     # only with a delay of at least 1/8 so that every history terminates
     for i in range(nids):
@@ -196,6 +208,113 @@ def gen_clockrel(rng, nids):
     return ops
 
 
+def gen_exact(rng, nids):
+    """Round 6: a history on an exact time axis that is NOT a Python float (seed C20-11: legal inputs) - integer ticks
+    around an epoch-nanosecond stamp (Python int / np.int64 far above 2**53: doubles are 256 apart there, neighbouring
+    ticks collapse onto one double), Fraction (thirds, sevenths, offsets of 1/3000000 around the 1e-6 window),
+    np.longdouble (64-bit mantissa: an extra 2**-58 grid no double can hold) and Decimal.  Every time in the history is
+    written as the text 'n/d' of its exact value; run_real hands it over as an object of the axis, reads everything back
+    exactly (`exact_val`) and the model - which computes in exact rationals anyway - must print the very same lines."""
+    F = Fraction
+    kind = AXES[int(rng.integers(0, len(AXES)))]
+    ri = lambda a, b: int(rng.integers(a, b))      # noqa
+    if kind in ('int', 'i64'):
+        base = F(TICK0 + ri(0, 10 ** 9))
+        off = lambda: F(ri(0, 40) if rng.random() < 0.7 else ri(0, 1500))      # noqa
+        small = lambda: F(ri(0, 3))                # noqa
+        step = lambda: F(ri(0, 700))               # noqa
+        period = lambda: F(ri(20, 300))            # noqa
+    elif kind == 'frac':
+        base = F(0)
+        den = (3, 7, 12, 1000)
+        small = lambda: F(ri(0, 5), 3000000)       # noqa  (3/3000000 = 1e-6 exactly: just above the double 1e-6)
+        off = lambda: F(ri(0, 30), den[ri(0, 4)]) + small()      # noqa
+        step = lambda: F(ri(0, 30), den[ri(0, 4)]) + small()     # noqa
+        period = lambda: F(ri(1, 9), (3, 7, 8)[ri(0, 3)])        # noqa
+    elif kind == 'ld':
+        base = F(0)
+        small = lambda: F(ri(0, 6), 2 ** 22) + F(ri(0, 4), 2 ** 58)      # noqa
+        off = lambda: F(ri(0, 17), 4) + small()    # noqa
+        step = lambda: F(ri(0, 13), 4) + small()   # noqa
+        period = lambda: F(ri(1, 9), 8) + F(ri(0, 4), 2 ** 58)   # noqa
+    else:
+        base = F(0)
+        small = lambda: F(3 * ri(0, 5), 10 ** 7)   # noqa
+        off = lambda: F(ri(0, 17), 4) + small()    # noqa
+        step = lambda: F(ri(0, 13), 4) + small()   # noqa
+        period = lambda: F(ri(1, 9), 8)            # noqa
+    ops = [('axis', kind)]
+    for i in range(nids):
+        kids = []
+        if rng.random() < 0.5:
+            kids.append((qs(period()), i) + (('clock',) if rng.random() < 0.3 else ()))
+        if i + 1 < nids and rng.random() < 0.5:
+            kids.append((qs(small() if rng.random() < 0.7 else off()), ri(i + 1, nids)) + (('clock',) if rng.random() < 0.3 else ()))
+        if kids:
+            ops.append(('kids', i, kids))
+    t = base
+    if base and rng.random() < 0.7:
+        ops.append(('evolve', qs(t)))       # the clock leaves the int 0 it starts from
+    for _ in range(ri(1, 5)):
+        for _ in range(ri(0, 7)):
+            ops.append(('add', qs(t + off()), ri(0, nids)))
+        r = rng.random()
+        if r < 0.08 and t > base:
+            ops.append(('evolve', qs(t - (small() or 1))))      # backwards (by as little as one tick): must be refused
+        elif r < 0.16:
+            ops.append(('evolve', qs(t)))
+        else:
+            t = t + step()
+            ops.append(('evolve', qs(t)))
+    return ops
+
+
+def reentrant(ops):
+    return any(op[0] == 'nest' for op in ops)
+
+
+def nest_reach(ops):
+    """how far beyond an evolve_until target nested calls can carry the evolution: each callback added from outside may
+    re-enter once (re-entering callbacks are nobody's children), by at most the largest positive nest delay"""
+    ds = [float(op[2]) for op in ops if op[0] == 'nest' and float(op[2]) > 0]
+    return (max(ds) if ds else 0.0) * sum(1 for op in ops if op[0] == 'add')
+
+
+def gen_reent(rng, nids):
+    """Round 6: callbacks that call evolve_until themselves (op ('nest', id, d, k): after scheduling its first k children
+    the callback calls evolve_until(own time + d)) - Lean loopR / evolveUntilR, theorems reentrant_*.  d < 0 (or a clock
+    ahead of the callback's time): the nested call is refused and the ValueError leaves the outer call; 0 <= d: a nested
+    evolution, beyond the outer target or not.  Re-entering callbacks are nobody's children (no unbounded recursion)."""
+    nids = max(nids, 2)
+    while True:
+        ops = []
+        nesters = sorted(set(int(rng.integers(0, nids)) for _ in range(int(rng.integers(1, 3)))))
+        plain = [i for i in range(nids) if i not in nesters]
+        for i in range(nids):
+            kids = []
+            if i in plain and rng.random() < 0.4:
+                kids.append((float(rng.integers(1, 9)) / 8.0, i))
+            for _ in range(int(rng.integers(0, 3))):
+                if plain:
+                    j = plain[int(rng.integers(0, len(plain)))]
+                    if j > i or i in nesters:
+                        kids.append(([0.0, TINY * int(rng.integers(0, 6)), float(rng.integers(0, 9)) / 4.0][int(rng.integers(0, 3))], j))
+            if kids:
+                ops.append(('kids', i, kids))
+            if i in nesters:
+                d = [-0.5, -TINY, 0.0, 2 * TINY, 0.25, 1.0, 2.5, float(rng.integers(0, 17)) / 4.0][int(rng.integers(0, 8))]
+                ops.append(('nest', i, d, int(rng.integers(0, 3))))
+        t = 0.0
+        for _ in range(int(rng.integers(1, 5))):
+            for _ in range(int(rng.integers(0, 6))):
+                ops.append(('add', t + float(rng.integers(0, 17)) / 4.0 + TINY * int(rng.integers(0, 4)), int(rng.integers(0, nids))))
+            t = t + float(rng.integers(0, 13)) / 4.0 + TINY * int(rng.integers(0, 4))
+            ops.append(('evolve', t))
+        ext = nest_reach(ops)
+        if population([(op[0], op[1] + ext) if op[0] == 'evolve' else op for op in ops]) < POPULATION_CAP // 2:
+            return ops
+
+
 def gen_interrupt(rng, big):
     """A callback raises in the middle of an ordinary (terminating) evolution and the caller resumes: every
     evolve_until(T) runs under a guard (the g-th callback executed raises after its work), then the guard is taken off
@@ -208,7 +327,8 @@ def gen_interrupt(rng, big):
             break
     # 'guard': the callback raises after its work;  'raise': before doing anything (not with clock-relative children: the
     # model's `kidsExcept` path works on entry-only callbacks)
-    kind = 'raise' if not clock_relative(base) and rng.random() < 0.5 else 'guard'
+    # (round 6: clock-relative children too - Lean loopXC / raise_eq_fuel_out_clock)
+    kind = 'raise' if rng.random() < 0.5 else 'guard'
     ops = []
     for op in base:
         if op[0] != 'evolve':
@@ -259,6 +379,10 @@ def respell(rng, ops):
     'arrays': fresh 0-d / 1-element arrays everywhere.  'running0d' / 'running1d': ONE caller-owned array that is
     overwritten in place before each evolve_until (and some add_callback) - the time-stepping-loop idiom."""
     sp = ['float', 'float', 'mixed', 'mixed', 'arrays', 'running0d', 'running1d'][int(rng.integers(0, 7))]
+    if reentrant(ops):
+        return 'float', ops
+    if exact_axis(ops):
+        return 'axis-' + exact_axis(ops), ops       # the spelling IS the axis: every time an object of that type
     if sp == 'float':
         return sp, ops
     out = []
@@ -289,6 +413,82 @@ def fl(x):
     """The value of a time object (float/int/NumPy scalar/0-d or 1-element array) as a Python float."""
     import numpy as np
     return float(np.asarray(x, dtype=float).reshape(-1)[0])
+
+
+AXES = ('int', 'i64', 'frac', 'ld', 'dec')
+TICK0 = 1760000000000000000      # an epoch-nanosecond time stamp (time.time_ns() in 2025): doubles are 256 apart there
+
+
+def tm(x):
+    """The time written in an op: a float as generated, or - in a history on an exact, non-float time axis (op
+    ('axis', kind)) - the text 'n/d' of an exact rational (JSON-serialisable, so replay files carry it unchanged)."""
+    return Fraction(x) if isinstance(x, str) else float(x)
+
+
+def qs(q):
+    """the op text of an exact time"""
+    q = Fraction(q)
+    return '%d/%d' % (q.numerator, q.denominator)
+
+
+def exact_axis(ops):
+    """The kind of the exact time axis of a history, or None for the float axes (everything up to round 5)."""
+    for op in ops:
+        if op[0] == 'axis':
+            return op[1]
+    for op in ops:
+        if (op[0] in ('add', 'evolve') and isinstance(op[1], str)) or (op[0] == 'kids' and any(isinstance(k[0], str) for k in op[2])):
+            return 'frac'       # shrinking removed the axis op: the times are still exact rationals
+    return None
+
+
+def exact_val(x):
+    """The EXACT value of a time object as a Fraction: Python int / NumPy integer ticks (beyond 2**53 too), Fraction,
+    Decimal, NumPy floating of any width (longdouble: 64-bit mantissa), Python float, 0-d / 1-element arrays of those."""
+    import numpy as np
+    import decimal
+    if isinstance(x, np.ndarray):
+        x = x.reshape(-1)[0]
+    if isinstance(x, Fraction):
+        return x
+    if isinstance(x, bool):
+        raise TypeError('bool is not a time')
+    if isinstance(x, (int, np.integer)):
+        return Fraction(int(x))
+    if isinstance(x, decimal.Decimal):
+        return Fraction(x)
+    if isinstance(x, np.floating):
+        n, d = x.as_integer_ratio()
+        return Fraction(int(n), int(d))
+    return Fraction(float(x))
+
+
+def spell_exact(q, kind):
+    """The exact time q (a Fraction) as an object of the time axis `kind`; a q the axis cannot hold exactly (only a
+    broken implementation's clock leads to one) is handed over as a Fraction."""
+    import numpy as np
+    import decimal
+    q = Fraction(q)
+    if kind == 'int' and q.denominator == 1:
+        return int(q)
+    if kind == 'i64' and q.denominator == 1 and abs(q) < 2 ** 63:
+        return np.int64(int(q))
+    if kind == 'ld':
+        n, d = q.numerator, q.denominator
+        if d & (d - 1) == 0 and abs(n) < 2 ** 64:
+            sgn, n = (-1 if n < 0 else 1), abs(n)
+            x = np.longdouble(n >> 32) * np.longdouble(2.0 ** 32) + np.longdouble(n & (2 ** 32 - 1))
+            x = x / np.longdouble(2.0) ** (d.bit_length() - 1)
+            x = -x if sgn < 0 else x
+            if exact_val(x) == q:
+                return x
+    if kind == 'dec':
+        with decimal.localcontext() as c:
+            c.prec = 60
+            x = decimal.Decimal(q.numerator) / decimal.Decimal(q.denominator)
+        if Fraction(x) == q and len(x.as_tuple().digits) <= 24:
+            return x
+    return q
 
 
 def spell(x, how, shared):
@@ -325,6 +525,9 @@ def hard_bound(ops):
     """How many callbacks + integrate() calls ONE evolve_until of this history may execute before the recorder aborts it:
     four times what the dry run of the whole history executes (each callback is preceded by at most one integration,
     plus slack for the coalescing the dry run ignores), and at least 200."""
+    if reentrant(ops):      # nested calls carry an evolution beyond its own target
+        ext = nest_reach(ops)
+        ops = [(op[0], tm(op[1]) + ext) + tuple(op[2:]) if op[0] == 'evolve' else op for op in ops]
     return 4 * population(ops, cap=4 * POPULATION_CAP) + 4 * sum(1 for op in ops if op[0] in ('add', 'evolve')) + 200
 
 
@@ -373,7 +576,7 @@ def run_real(ops):
             self.events = []
 
         def integrate(self, dt):
-            record(('I', fl(dt), fl(self.t)))     # the stretch handed over, and the clock it starts from
+            record(('I', V(dt), V(self.t)))     # the stretch handed over, and the clock it starts from
 
     bound = hard_bound(ops)
     nrec = [0]         # callbacks + integrations of the running evolve_until
@@ -390,6 +593,8 @@ def run_real(ops):
         _watchdog[0] = max(0.5, w / 2)
         raise Runaway('no return within %g s' % w)
 
+    axis = exact_axis(ops)
+    V = exact_val if axis else fl      # the value of a time object: exact on the exact axes, the float otherwise
     s = Sys()
     kids = {}
     scheduled = []     # every add_callback: (time, ctr, id)
@@ -401,9 +606,11 @@ def run_real(ops):
     nexec = [0]
     pre = [0]          # > 0: the pre-th callback called within one evolve_until raises PreRaise before doing anything
     wf = [True]        # every child delay so far is >= 0 (Lean: WF kids)
+    nest = {}          # id -> (d, k): the callback calls evolve_until(own time + d) after its first k children (Lean: nestBody)
+    nested = []        # (target, clock when the nested call was made) of the running evolve_until
 
     def snap():
-        return (fl(s.t), sorted((fl(q[0]), q[1]) for q in s.callbacks))
+        return (V(s.t), sorted((V(q[0]), q[1]) for q in s.callbacks))
 
     def moved(before, after, call):
         """clause: a caller's in-place change of ITS OWN array must not reach the system (key by what moved)"""
@@ -429,10 +636,12 @@ def run_real(ops):
 
     def spelled(x, how):
         """`spell`, observing that overwriting the caller's shared array for the next call moves nothing either"""
+        if axis:
+            return spell_exact(x, axis), None
         before = snap()
         arg, mut = spell(x, how, shared)
         if how in ('0ds', '1ds'):
-            moved(before, snap(), 'preparing the next call (overwriting its running-time array with %r)' % float(x))
+            moved(before, snap(), 'preparing the next call (overwriting its running-time array with %r)' % (x,))
         return arg, mut
 
     def add(t, cid, how='f', obj=None):
@@ -440,17 +649,27 @@ def run_real(ops):
         scheduled.append((t, ctr, cid))
 
         def cb():
-            record(('F', t, ctr, cid, fl(s.t)))
+            record(('F', t, ctr, cid, V(s.t)))
             if pre[0] and nexec[0] + 1 >= pre[0]:
                 nexec[0] += 1
                 raise PreRaise()
-            for d, child, kind in kids.get(cid, []):
+            kl = kids.get(cid, [])
+            nst = nest.get(cid)
+            if nst is not None and nst[1] >= len(kl):
+                kl = kl + [None]                    # the nested call comes after all children
+            for idx, kd in enumerate(kl):
+                if nst is not None and idx == min(nst[1], len(kl) - 1):
+                    nested.append((t + nst[0], V(s.t)))
+                    s.evolve_until(t + nst[0])      # re-entrancy: a ValueError (target below the clock) escapes
+                if kd is None:
+                    break
+                d, child, kind = kd
                 if kind == 'clock':
-                    tc = fl(s.t) + d                # the docstring idiom: self.t + period
+                    tc = V(s.t) + d                # the docstring idiom: self.t + period
                     if tc < t:
                         wf[0] = False               # the clock lagged: the child is due before its parent's time
                     add(tc, child)
-                elif 'clockobj' in mode and d == 0 and fl(s.t) == t:
+                elif 'clockobj' in mode and d == 0 and V(s.t) == t:
                     add(t, child, obj=s.t)          # "now", spelled as the clock object itself
                 else:
                     add(t + d, child)
@@ -465,15 +684,19 @@ def run_real(ops):
         if mut is not None:
             poison(mut, 'add_callback(<%s array %r>)' % (how, t))
 
-    obs = []
+    obs = Obs()
+    faults = obs.faults
+    last_arg = [None]
     hz = 0.0                    # the largest target an accepted evolve_until was given
     adds_after_horizon = True   # every add_callback from outside was for a time >= hz at that moment
     adds_from_clock = True      # every add_callback from outside was for a time >= the clock at that moment (Lean: Inv.future)
     for op in ops:
         if op[0] == 'kids':
-            kids[op[1]] = [(float(k[0]), int(k[1]), (k[2] if len(k) > 2 else 'own')) for k in op[2]]
-            if any(float(k[0]) < 0 for k in op[2]):
+            kids[op[1]] = [(tm(k[0]), int(k[1]), (k[2] if len(k) > 2 else 'own')) for k in op[2]]
+            if any(tm(k[0]) < 0 for k in op[2]):
                 wf[0] = False
+        elif op[0] == 'nest':
+            nest[int(op[1])] = (tm(op[2]), int(op[3]))
         elif op[0] == 'mode':
             mode.add(op[1])
         elif op[0] == 'guard':
@@ -481,21 +704,29 @@ def run_real(ops):
         elif op[0] == 'raise':
             pre[0] = int(op[1])
         elif op[0] == 'add':
-            if float(op[1]) < hz:
+            if tm(op[1]) < hz:
                 adds_after_horizon = False
-            if float(op[1]) < fl(s.t):
+            if tm(op[1]) < V(s.t):
                 adds_from_clock = False
-            add(float(op[1]), int(op[2]), how=(op[3] if len(op) > 3 else 'f'))
+            try:
+                add(tm(op[1]), int(op[2]), how=(op[3] if len(op) > 3 else 'f'))
+            except Exception as e:  # noqa - the public API refused a legal time argument: a violation, and the history ends here
+                scheduled.pop()
+                faults.append(('add-callback-raises:' + type(e).__name__, 'add_callback(%r spelled %s, f) raised %s: %s' % (
+                    tm(op[1]), axis or (op[3] if len(op) > 3 else 'f'), type(e).__name__, str(e)[:120])))
+                break
         elif op[0] == 'evolve':
             s.events = []
+            del nested[:]
             nexec[0] = 0
             nrec[0] = 0
-            t0 = fl(s.t)
-            q0 = sorted(fl(q[0]) for q in s.callbacks)
+            t0 = V(s.t)
+            q0 = sorted(V(q[0]) for q in s.callbacks)
             n_sched0 = len(scheduled)
             status = 'ok'
             how = op[2] if len(op) > 2 else 'f'
-            arg, mut = spelled(op[1], how)
+            arg, mut = spelled(tm(op[1]), how)
+            last_arg[0] = arg if mut is None else None
             why = ''
             old_handler = None
             try:
@@ -522,17 +753,17 @@ def run_real(ops):
                     signal.setitimer(signal.ITIMER_REAL, 0)
                     signal.signal(signal.SIGALRM, old_handler)
             if status != 'value':
-                hz = max(hz, float(op[1]))
-            t1 = fl(s.t)
-            queue = sorted((fl(q[0]), q[1]) for q in s.callbacks)
+                hz = max(hz, tm(op[1]))
+            t1 = V(s.t)
+            queue = sorted((V(q[0]), q[1]) for q in s.callbacks)
             if mut is not None:
-                poison(mut, 'evolve_until(<%s array %r>)' % (how, float(op[1])))
-            obs.append({'T': float(op[1]), 'status': status, 't0': t0, 't1': t1, 'ctr': s.callback_counter,
+                poison(mut, 'evolve_until(<%s array %r>)' % (how, tm(op[1])))
+            obs.append({'T': tm(op[1]), 'status': status, 't0': t0, 't1': t1, 'ctr': s.callback_counter,
                         'events': list(s.events), 'queue': queue, 'scheduled': list(scheduled), 'n_sched0': n_sched0,
                         'hz': hz, 'adds_after_horizon': adds_after_horizon, 'alias': alias,
                         'adds_from_clock': adds_from_clock, 'wf': wf[0], 'guard': guard[0], 'why': why,
                         'q0': q0, 'progress': progress(kids), 'pre': pre[0],
-                        'nrec': nrec[0]})
+                        'nrec': nrec[0], 'reent': bool(nest), 'nested': list(nested)})
             alias = []
             if status == 'runaway':
                 break           # the system is in the middle of a loop that does not end: the history stops here
@@ -544,11 +775,11 @@ def run_real(ops):
         obs[-1]['final_flags'] = (adds_after_horizon, adds_from_clock)
         # the same target once more must be accepted (it is not backwards): a zero-length evolution
         last = obs[-1]
-        if last['status'] == 'ok' and not guard[0] and not pre[0]:
+        if last['status'] == 'ok' and not guard[0] and not pre[0] and not (nest and last['t1'] > last['T']):
             try:
                 n0 = len(s.events)
-                s.evolve_until(last['T'])
-                last['again'] = 'ok' if len(s.events) == n0 and fl(s.t) == last['t1'] else 'changed'
+                s.evolve_until(last['T'] if last_arg[0] is None else last_arg[0])
+                last['again'] = 'ok' if len(s.events) == n0 and V(s.t) == last['t1'] else 'changed'
             except ValueError:
                 last['again'] = 'value'
             except Exception as e:  # noqa
@@ -658,6 +889,30 @@ def progress_fuels(ops, obs):
     return out
 
 
+def dag_fuels(ops, obs):
+    """The explicit fuel of Lean `terminates_if_dag` for every evolve_until of a history whose callbacks schedule only
+    callbacks of strictly larger id (any delay: zero, sub-window, negative; entry-only): with B = most children of one
+    callback and N = number of ids, fuel = sum over the queued entries of (B+1)^(N - id), plus one.  None when the
+    history does not qualify (or has no children at all)."""
+    if any(op[0] in ('guard', 'raise', 'nest', 'axis') for op in ops) or not obs or len(obs) != sum(1 for op in ops if op[0] == 'evolve'):
+        return None
+    kids = {int(op[1]): op[2] for op in ops if op[0] == 'kids'}
+    if not kids or any((len(k) > 2 and k[2] == 'clock') or int(k[1]) <= i for i, l in kids.items() for k in l):
+        return None
+    N = 1 + max([int(k[1]) for l in kids.values() for k in l] + [int(op[2]) for op in ops if op[0] == 'add'] + list(kids))
+    B = max(len(l) for l in kids.values())
+    fired, out = set(), []
+    for o in obs:
+        if o['status'] not in ('ok', 'value'):
+            return None
+        f = sum((B + 1) ** (N - i) for (t, c, i) in o['scheduled'][:o['n_sched0']] if (t, c) not in fired) + 1
+        if f > GEOM_CAP:
+            return None
+        out.append(f)
+        fired |= set((e[1], e[2]) for e in o['events'] if e[0] == 'F')
+    return out
+
+
 def model_lines(ops, fuels=None, obs=None):
     """The history as the CALLER's program (Lean: `ROp`, Model/SchedulerRef.lean): a time handed over as a caller-owned
     array is a reference to a cell (`cell k x` = the caller writes x into its array k; `addref` / `evolveref` hand the
@@ -680,13 +935,15 @@ def model_lines(ops, fuels=None, obs=None):
                 cell = 1
             else:
                 cell, fresh = fresh, fresh + 1
-            lines.append('C20 cell %d %s' % (cell, rat(op[1])))
+            lines.append('C20 cell %d %s' % (cell, rat(tm(op[1]))))
         if op[0] == 'kids':
             lines.append('C20 kids %d %s' % (op[1], ','.join(
-                '%s:%d:%s' % (rat(k[0]), k[1], 'c' if len(k) > 2 and k[2] == 'clock' else 'o') for k in op[2]) or '-'))
+                '%s:%d:%s' % (rat(tm(k[0])), k[1], 'c' if len(k) > 2 and k[2] == 'clock' else 'o') for k in op[2]) or '-'))
         elif op[0] == 'add':
-            lines.append('C20 add %s %d' % (rat(op[1]), op[2]) if cell is None else 'C20 addref %d %d' % (cell, op[2]))
-        elif op[0] == 'mode':
+            lines.append('C20 add %s %d' % (rat(tm(op[1])), op[2]) if cell is None else 'C20 addref %d %d' % (cell, op[2]))
+        elif op[0] == 'nest':
+            lines.append('C20 nest %d %s %d' % (op[1], rat(tm(op[2])), op[3]))
+        elif op[0] in ('mode', 'axis'):
             continue            # callbacks passing the clock object back: times are values
         elif op[0] == 'raise':
             pass                # which callback raised is read off the real run (`evolvex`)
@@ -697,12 +954,14 @@ def model_lines(ops, fuels=None, obs=None):
             if fuels:
                 fuel = fuels.pop(0)
             o = obs[len(idx) - 1] if obs is not None and len(idx) - 1 < len(obs) else None
-            if o is not None and o['status'] == 'raised':
+            if reentrant(ops):
+                lines.append('C20 evolver %s %d new' % (rat(tm(op[1])), fuel))
+            elif o is not None and o['status'] == 'raised':
                 # the callback that raised at once: the last one called (Lean: loopX with raises = (ctr == c))
                 c = [e for e in o['events'] if e[0] == 'F'][-1][2]
-                lines.append('C20 evolvex %s %d %d new' % (rat(op[1]), fuel, c))
+                lines.append('C20 evolvex %s %d %d new' % (rat(tm(op[1])), fuel, c))
             else:
-                lines.append('C20 evolve %s %d new' % (rat(op[1]), fuel) if cell is None else 'C20 evolveref %d %d new' % (cell, fuel))
+                lines.append('C20 evolve %s %d new' % (rat(tm(op[1])), fuel) if cell is None else 'C20 evolveref %d %d new' % (cell, fuel))
         if cell is not None:
             v = float(op[1])
             v = v + 0.5 if npoison % 3 == 0 else v + 1024.5 if npoison % 3 == 1 else -3.5
@@ -716,6 +975,51 @@ def model_lines(ops, fuels=None, obs=None):
 # ---------------------------------------------------------------------------------------------
 # the property itself, stated on the observations of the real code (independent of the model)
 
+def reent_clauses(o, fires, fired_keys, executed_before):
+    """One evolve_until(T >= clock) during which callbacks called evolve_until themselves.  Outside the quantifier of
+    C20 ("callbacks may schedule further callbacks"); evaluated are the clauses the code keeps - and Lean proves of
+    loopR: tiling for every status (reentrant_tiling), a returning call leaves the clock >= T - 1e-6
+    (reentrant_clock_end_lower) and <= T when no nested target exceeded T (reentrant_clock_end) - plus exactly-once
+    (nothing twice, everything due before T executed, nothing beyond the furthest target) and: an escaping ValueError
+    comes from a nested target below the clock."""
+    bad = []
+    T = o['T']
+    tol = 1e-9 * max(1.0, abs(o['t1']))
+    dts = [e[1] for e in o['events'] if e[0] == 'I']
+    if o['status'] not in ('ok', 'value'):
+        return [('raises-%s' % o['status'], 're-entrant evolve_until(%r) raised %s' % (T, o['status']))]
+    if abs(sum(dts) - (o['t1'] - o['t0'])) > tol:
+        bad.append(('tiling', 're-entrant: integration intervals sum to %r but the clock moved by %r' % (sum(dts), o['t1'] - o['t0'])))
+    if any(dt <= EPS for dt in dts):
+        bad.append(('tiling', 're-entrant: an integration interval of at most 1e-6 was integrated'))
+    if len(set(fired_keys)) != len(fired_keys):
+        bad.append(('exactly-once', 're-entrant: a callback ran twice'))
+    reach = max([T] + [tg for tg, clk in o['nested']])
+    allowed = set((t, c) for (t, c, i) in o['scheduled'] if t < reach) - executed_before
+    if not set(fired_keys) <= allowed:
+        bad.append(('exactly-once', 're-entrant: a callback ran that was not due before the furthest target %r or had run already' % (reach,)))
+    if set(fired_keys) & set(o['queue']):
+        bad.append(('exactly-once', 're-entrant: an executed callback is still queued'))
+    if o['status'] == 'value':
+        if not any(tg < clk for tg, clk in o['nested']):
+            bad.append(('forwards-refused', 're-entrant evolve_until(%r): ValueError although no nested target was below the clock' % (T,)))
+        elif fires and o['t1'] != fires[-1][4] and o['nested'][-1][0] < o['nested'][-1][1]:
+            pass
+        return bad
+    due = set((t, c) for (t, c, i) in o['scheduled'] if t < T) - executed_before
+    if not due <= set(fired_keys) or any(t < T for (t, c) in o['queue']):
+        bad.append(('exactly-once', 're-entrant: a callback due before T=%r was not executed' % (T,)))
+    if any(tg < clk for tg, clk in o['nested']):
+        bad.append(('backwards-not-refused', 're-entrant: a nested evolve_until below the clock was not refused'))
+    if T - o['t1'] > EPS:
+        bad.append(('clock-end', 're-entrant: clock ended at %r for target %r' % (o['t1'], T)))
+    if all(tg <= T for tg, clk in o['nested']) and o['t1'] > T:
+        bad.append(('clock-above-target', 're-entrant (no nested target beyond T): evolve_until(%r) left the clock at %r' % (T, o['t1'])))
+    if o['t1'] > reach:
+        bad.append(('clock-above-target', 're-entrant: the clock %r is beyond the furthest target %r' % (o['t1'], reach)))
+    return bad
+
+
 def oracle(obs):
     """Returns a list of (key, what) for every clause of C20 that fails on these observations.
 
@@ -727,7 +1031,7 @@ def oracle(obs):
     clock (`clock_at_callback`); the order across calls when nothing was added before the time evolved to
     (`history_inv`).  Comparisons of clocks with targets are exact float comparisons: the clauses are inequalities
     between the numbers the system holds."""
-    bad = []
+    bad = list(getattr(obs, 'faults', []))
     executed_before = set()
     for k, o in enumerate(obs):
         # time arguments are values: the caller's later in-place changes of ITS array must not reach the system
@@ -741,6 +1045,10 @@ def oracle(obs):
             continue
         fires = [e for e in o['events'] if e[0] == 'F']
         fired_keys = [(e[1], e[2]) for e in fires]
+        if o.get('reent'):
+            bad.extend(reent_clauses(o, fires, fired_keys, executed_before))
+            executed_before |= set(fired_keys)
+            continue
         if o['status'] == 'value':
             bad.append(('forwards-refused', 'evolve_until(%r) with the clock at %r (not ahead of the target) was refused as backwards'
                         % (T, o['t0'])))
@@ -837,7 +1145,8 @@ def oracle(obs):
             if before != prev:
                 bad.append(('tiling', 'an integration starts at clock %r but the previous stretch ended at %r' % (before, prev)))
                 break
-            if after is None or dt != float(Fraction(after) - Fraction(before)):
+            # (on an exact time axis - dt is a Fraction - the subtraction does not round: dt IS the stretch)
+            if after is None or dt != (after - before if isinstance(dt, Fraction) else float(Fraction(after) - Fraction(before))):
                 bad.append(('integrate-argument', 'integrate(%r) was called for the stretch from clock %r to clock %r' % (dt, before, after)))
                 break
             prev = after
@@ -859,7 +1168,8 @@ def oracle(obs):
                             T, o['t1'], 'raises ValueError (backwards)' if o['again'] == 'value' else 'gives ' + o['again'])))
     # history level (Lean: history_inv): when no add_callback was for a time before the largest target
     # already evolved to, the callbacks run in (time, insertion) order ACROSS evolve_until calls as well
-    if obs and obs[-1]['adds_after_horizon'] and obs[-1]['wf']:
+    # (not for re-entering callbacks: what they schedule after their nested evolve_until returns lies behind the clock)
+    if obs and obs[-1]['adds_after_horizon'] and obs[-1]['wf'] and not any(o.get('reent') for o in obs):
         allkeys = [(e[1], e[2]) for o in obs if o['status'] == 'ok' for e in o['events'] if e[0] == 'F']
         if any(not (a < b) for a, b in zip(allkeys, allkeys[1:])):
             bad.append(('order-across-evolves', 'callbacks of successive evolve_until calls did not run in (time, insertion) order'))
@@ -905,6 +1215,9 @@ DIRECTED = [
     ('interrupt', [('raise', 1), ('add', 1.0, 0), ('add', 2.0, 1), ('evolve', 3.0), ('raise', 0), ('evolve', 3.0)]),
     ('interrupt', [('kids', 0, [(0.25, 0), (0.0, 1)]), ('raise', 3), ('add', 0.5, 0), ('add', 0.5 + 2 * TINY, 2), ('evolve', 2.0), ('evolve', 2.0),
                    ('raise', 0), ('evolve', 2.0)]),
+    # round 6: raising at once with clock-relative children (Lean loopXC): the clock lags by 2 TINY when the second fires
+    ('interrupt', [('kids', 0, [(0.25, 0, 'clock'), (0.0, 1, 'clock')]), ('raise', 3), ('add', 1.0, 0), ('add', 1.0 + 2 * TINY, 0), ('evolve', 2.0),
+                   ('evolve', 2.0), ('raise', 0), ('evolve', 2.0)]),
     # Lean final_clock_below_target_possible: the clock ends strictly below the target
     ('below-target', [('evolve', 2 * TINY), ('evolve', 3 * TINY), ('evolve', 5 * TINY)]),
     # the threshold itself: a stretch of exactly the double 1e-6 is not integrated, one ulp more is
@@ -915,6 +1228,22 @@ DIRECTED = [
     # the docstring idiom `add_callback(self.t + period, ...)`: clock-relative children (oracle only)
     ('clockrel', [('kids', 0, [(0.25, 0, 'clock')]), ('add', 1.0, 0), ('add', 1.0 + 2 * TINY, 0), ('evolve', 2.0), ('evolve', 3.0 + TINY)]),
     ('clockrel', [('kids', 1, [(0.0, 2, 'clock')]), ('add', 1.0, 0), ('add', 1.0 + 2 * TINY, 1), ('evolve', 2.0)]),
+    # round 6: callbacks that call evolve_until themselves (Lean reentrant_later_target_overshoots and friends)
+    ('reent', [('nest', 0, 2.0, 0), ('add', 1.0, 0), ('add', 2.5, 1), ('evolve', 2.25), ('evolve', 4.0)]),
+    ('reent', [('kids', 0, [(0.25, 1), (0.5, 1)]), ('nest', 0, 0.375, 1), ('add', 1.0, 0), ('add', 1.125, 1), ('evolve', 3.0)]),
+    ('reent', [('nest', 0, -0.5, 0), ('add', 1.0, 0), ('add', 2.0, 1), ('evolve', 3.0), ('evolve', 3.0)]),
+    ('reent', [('kids', 1, [(0.0, 2)]), ('nest', 1, 0.0, 5), ('nest', 0, 1.0, 0), ('add', 1.0, 0), ('add', 1.5, 1), ('add', 1.0 + TINY, 1),
+               ('evolve', 1.25), ('evolve', 2.0 + TINY), ('evolve', 5.0)]),
+    # round 6: exact time axes that are not floats (times as 'n/d' texts; handed over as objects of the axis)
+    ('exact', [('axis', 'i64'), ('evolve', qs(TICK0)), ('add', qs(TICK0 + 300), 0), ('add', qs(TICK0 + 200), 1), ('add', qs(TICK0 + 201), 2),
+               ('add', qs(TICK0 + 200), 3), ('evolve', qs(TICK0 + 250)), ('evolve', qs(TICK0 + 1000)), ('evolve', qs(TICK0 + 999))]),
+    ('exact', [('axis', 'int'), ('kids', 0, [(qs(7), 0, 'clock'), (qs(0), 1)]), ('add', qs(TICK0 + 3), 0), ('add', qs(TICK0 + 1), 1),
+               ('evolve', qs(TICK0 + 40)), ('evolve', qs(TICK0 + 40))]),
+    ('exact', [('axis', 'frac'), ('add', '1/3', 0), ('add', '1000003/3000000', 1), ('add', '1000001/3000000', 2), ('add', '1000004/3000000', 3),
+               ('evolve', '2/3'), ('evolve', '2000003/3000000'), ('evolve', '2000007/3000000')]),
+    ('exact', [('axis', 'ld'), ('kids', 0, [(qs(Fraction(1, 2 ** 58)), 1)]), ('add', qs(1 + Fraction(2, 2 ** 58)), 0), ('add', qs(1 + Fraction(1, 2 ** 58)), 1),
+               ('add', qs(1), 2), ('evolve', qs(1 + Fraction(3, 2 ** 58))), ('evolve', qs(2))]),
+    ('exact', [('axis', 'dec'), ('add', '1/4', 0), ('add', '2500003/10000000', 1), ('add', '2500012/10000000', 2), ('evolve', '1/2'), ('evolve', '1/2')]),
     ('decimal', [('evolve', 20.2), ('evolve', 53.6), ('evolve', 53.6)]),
     ('decimal', [('add', 53.6, 0), ('evolve', 20.2), ('evolve', 62.4)]),
     ('decimal', [('add', 0.1, 0), ('add', 0.3, 1), ('add', 0.1 + 0.2, 2), ('add', 0.7, 3), ('evolve', 0.7), ('evolve', 0.7), ('evolve', 1.3)]),
@@ -946,6 +1275,13 @@ def check_history(ctx, style, ops, want_model=True):
         what_small = [w for k, w in oracle(run_real(small)) if k == key]
         ctx.violation(key, what_small[0] if what_small else what, {'ops': small})
     nfire = sum(1 for o in obs for e in o['events'] if e[0] == 'F')
+    if exact_axis(ops):
+        ctx.count('exact_axis:' + exact_axis(ops))
+        times = [t for (t, c, i) in (obs[-1]['created'] if obs else [])]
+        ctx.count('exact_axis_callback_times', len(times))
+        ctx.count('exact_axis_callback_times_no_double_can_hold', sum(1 for t in times if Fraction(float(t)) != t))
+        ctx.count('exact_axis_pairs_of_distinct_times_collapsing_onto_one_double',
+                  sum(1 for a, b in zip(sorted(set(times)), sorted(set(times))[1:]) if float(a) == float(b)))
     ctx.count('style:' + style)
     ctx.count('evolves', len(obs))
     ctx.count('callbacks_fired', nfire)
@@ -981,6 +1317,13 @@ def run(ctx):
                  'hypotheses of its theorem; after each history the last target is requested once more and must be accepted.')
     ctx.rule += (' Clock-relative children (`self.t + d`, the docstring idiom; style clockrel) are modelled by loopC/stepOpC. '
                  'Generated histories whose dry-run population reaches %d executed callbacks are drawn again.' % POPULATION_CAP)
+    ctx.rule += (' Round 6: style exact - one exact NON-float time axis per history (Python int / np.int64 ticks around 1.76e18, '
+                 'Fraction, np.longdouble on a 2^-58 grid, Decimal): times are exact rationals, handed over as objects of the axis, '
+                 'clock / queue / integrate arguments read back exactly and compared exactly with oracle and model; style reent - '
+                 'callbacks that call evolve_until themselves (nested target below the clock, inside, beyond the outer target), '
+                 'compared with Lean evolveUntilR, oracle = the clauses the code keeps; raising at once also with clock-relative '
+                 'children (loopXC); histories whose callbacks schedule only larger ids are re-run on the fuel of terminates_if_dag; '
+                 'add_callback raising on a legal argument is a violation.')
     ctx.extra['population_cap'] = POPULATION_CAP
     ctx.assumptions += ['heapq pops the least (time, counter) tuple',
                         'float subtraction of the generated dyadic / grid times is exact; for the decimal style only the clocks are '
@@ -1001,6 +1344,7 @@ def run(ctx):
     observations = []
     tight = []
     n_tight = ctx.scale(150, 1500)
+    n_dag = [0]
     for style, ops in hist:
         obs = check_history(ctx, style, ops)
         if clock_relative(ops):
@@ -1014,11 +1358,19 @@ def run(ctx):
         # the same history once more on exactly the fuel of evolve_total_of_progress (when its hypotheses hold): the
         # model must return (not run out of fuel) and print the same lines, i.e. the real unbounded loop's run
         pf = progress_fuels(ops, obs)
-        if pf is not None and len(tight) < n_tight:
+        if pf is not None and len(tight) - n_dag[0] < n_tight:
             lines2, idx2 = model_lines(ops, fuels=pf)
             base2 = len(all_lines)
             all_lines += lines2
-            tight.append((ops, obs, [base2 + i for i in idx2], pf))
+            tight.append((ops, obs, [base2 + i for i in idx2], pf, 'evolve_total_of_progress'))
+        # ... and on the fuel of terminates_if_dag (children only towards larger ids, any delay)
+        df = dag_fuels(ops, obs)
+        if df is not None and n_dag[0] < n_tight:
+            n_dag[0] += 1
+            lines2, idx2 = model_lines(ops, fuels=df)
+            base2 = len(all_lines)
+            all_lines += lines2
+            tight.append((ops, obs, [base2 + i for i in idx2], df, 'terminates_if_dag'))
     eps_line = len(all_lines)
     all_lines.append('C20 eps %s' % (rat(consts[0]) if len(consts) == 1 else '0'))
     out = ctx.model(all_lines)
@@ -1026,14 +1378,15 @@ def run(ctx):
     if len(consts) != 1 or out[eps_line] != 'ok':
         ctx.disagree('C20 eps', {'impl': 'float literals of DynamicOpticalSystem.evolve_until: %r' % (consts,),
                                  'model': out[eps_line] + ' (eps of Model/Scheduler.lean)'})
-    for ops, obs, idx2, pf in tight:
-        ctx.count('histories_rerun_on_the_fuel_of_evolve_total_of_progress')
-        ctx.count('progress_fuel_total', sum(pf))
-        ctx.count('progress_callbacks_total', sum(1 for o in obs for e in o['events'] if e[0] == 'F'))
+    for ops, obs, idx2, pf, thm in tight:
+        ctx.count('histories_rerun_on_the_fuel_of_' + thm)
+        pre_ = 'progress' if thm == 'evolve_total_of_progress' else 'dag'
+        ctx.count(pre_ + '_fuel_total', sum(pf))
+        ctx.count(pre_ + '_callbacks_total', sum(1 for o in obs for e in o['events'] if e[0] == 'F'))
         for o, i, f in zip(obs, idx2, pf):
             ctx.traces_validated += 1
             if real_line(o) != out[i]:
-                ctx.disagree('C20 evolve on the fuel of evolve_total_of_progress',
+                ctx.disagree('C20 evolve on the fuel of ' + thm,
                              {'ops': ops, 'T': o['T'], 'fuel': f, 'impl': real_line(o), 'model': out[i]})
                 break
     for (style, ops, obs), idx in zip(observations, index):
@@ -1053,12 +1406,21 @@ def run(ctx):
                 ctx.count('evolves_interrupted_by_guard')
             if o['status'] == 'raised':
                 ctx.count('evolves_interrupted_by_a_callback_raising_at_once')
+                if clock_relative(ops):
+                    ctx.count('evolves_interrupted_by_raising_at_once_with_clock_relative_children')
             if real_line(o) != out[i]:
                 ctx.disagree('C20 evolve', {'ops': ops, 'T': o['T'], 'impl': real_line(o), 'model': out[i]},
                              key=('raises-index-empty-queue' if o['status'] == 'index' else None))
                 agree = False
                 break
         # whole-history summary: time evolved to, clock, #created, #executed, #pending, global order
+        if reentrant(ops):
+            ctx.count('reentrant_evolves', len(obs))
+            ctx.count('reentrant_nested_calls', sum(len(o['nested']) for o in obs))
+            ctx.count('reentrant_nested_beyond_outer_target', sum(1 for o in obs for tg, clk in o['nested'] if tg > o['T']))
+            ctx.count('reentrant_nested_refused', sum(1 for o in obs for tg, clk in o['nested'] if tg < clk))
+            ctx.count('reentrant_clock_left_above_target', sum(1 for o in obs if o['status'] == 'ok' and o['t1'] > o['T']))
+            continue        # the whole-history summary is about `Hist` / `runOps` (entry-only callbacks)
         if agree and obs and all(o['status'] in ('ok', 'value', 'fuel', 'raised') for o in obs):
             ctx.traces_validated += 1
             ctx.count('history_summaries_compared')
